@@ -809,6 +809,10 @@ func (e *Env) callExpr(x *ECall) tv {
 			e.fail("upd: array expected")
 		}
 		return tv{Store(a, i, v), nil}
+	case "fdiv":
+		// fdiv(a, b): floor division (b > 0), e.g. the day number of an instant
+		a, b := u.evalTerm(e, x.Args[0]), u.evalTerm(e, x.Args[1])
+		return tv{mk(SInt, "div", a, b), types.Typ[types.Int]}
 	case "abs":
 		t := u.evalTerm(e, x.Args[0])
 		return tv{Ite(Ge(t, zeroLike(t)), t, Neg(t)), nil}
